@@ -204,6 +204,19 @@ HANDSHAKE = (b"GET /ws HTTP/1.1\r\nHost: example.com\r\nUpgrade: websocket\r\nCo
              b"Sec-WebSocket-Version: 13\r\n%s\r\n")
 
 
+class _Failing(list):
+    """transport script: every attempt to send fails with the given OSError"""
+    def __init__(self, exc):
+        list.__init__(self, [exc])
+        self.exc = exc
+
+    def pop(self, i=0):
+        return self.exc
+
+    def __bool__(self):
+        return True
+
+
 def session(steps, settings=None, extra_request_headers=b"", handler_attrs=None, on_message=None, request=None):
     """steps: list of
         ("peer", bytes)                 bytes from the peer (frames)
@@ -212,6 +225,7 @@ def session(steps, settings=None, extra_request_headers=b"", handler_attrs=None,
         ("write", message)              the application calls handler.write_message
         ("ping", data)                  the application calls handler.ping
         ("stall",)                      the peer stops reading: writes stay in the buffer from now on
+        ("reset",)                      the peer is gone (TCP reset) but the loop has not noticed: the next send fails with ECONNRESET
         ("advance", seconds)            virtual time passes (in steps of <= 0.25 s so that timers fire in order)
     Returns dict(events=[...handler events and write outcomes in order...], frames=[decoded frames the server sent after the handshake], closed_at=step index or None,
                  status=handshake status line, logs=[error records])"""
@@ -246,6 +260,7 @@ def session(steps, settings=None, extra_request_headers=b"", handler_attrs=None,
     for k, v in (handler_attrs or {}).items():
         setattr(Handler, k, v)
     marks = {}
+    pending_writes = []
 
     async def after(v, stream, server, res):
         head_len = len(bytes(stream.sent))
@@ -268,10 +283,14 @@ def session(steps, settings=None, extra_request_headers=b"", handler_attrs=None,
                 elif kind == "close":
                     h.close(*st[1:])
                     events.append(("closed-locally",) + tuple(st[1:]))
+                elif kind == "reset":
+                    # the peer vanishes with a TCP reset that the event loop has not noticed yet: the next attempt to send fails with ECONNRESET
+                    stream.accepts = _Failing(ConnectionResetError(104, "Connection reset by peer"))
                 elif kind == "write":
                     try:
-                        h.write_message(st[1], binary=isinstance(st[1], bytes))
+                        fut = h.write_message(st[1], binary=isinstance(st[1], bytes))
                         events.append(("write-accepted", st[1]))
+                        pending_writes.append((i, fut))
                     except WS.WebSocketClosedError:
                         events.append(("write-refused", "WebSocketClosedError"))
                 elif kind == "ping":
@@ -294,6 +313,11 @@ def session(steps, settings=None, extra_request_headers=b"", handler_attrs=None,
             await v.tick(4)
             stream.pump()
             await v.tick(2)
+            for (wi, fut) in list(pending_writes):
+                if fut.done():
+                    pending_writes.remove((wi, fut))
+                    exc = None if fut.cancelled() else fut.exception()
+                    events.append(("write-outcome", wi, "sent" if exc is None else type(exc).__name__))
             events.append(("after-step", i, "closed" if stream.closed() else "open", len(bytes(stream.sent)) - head_len))
         marks["tail"] = bytes(stream.sent)[head_len:]
     res = S.run_server([request if request is not None else HANDSHAKE % extra_request_headers], make_app=lambda r: W.Application([(r"/ws", Handler)], **(settings or {})), eof=True, after=after)
